@@ -11,7 +11,7 @@ import (
 func init() {
 	register(&Property{
 		ID:      "C18",
-		Explain: "FOLD of every reset point started from a fully dirty object (every field holding a recognisable stale value: buffered bytes, a sticky error, attached extensions, flushing disabled, another side, a mid-sequence UTF-8 state, a stream position) and compared field by field with what the constructor produces for the same arguments: wsutil.Writer.Reset vs NewWriterBuffer (header reservation re-derived for the new side), ResetOp (stores exactly op/n/dirty/fseq and keeps extensions and the flush mode), the GetWriter/PutWriter pool cycle (reuse branch resets before handing out, Put resets before pooling), wsflate.Writer.Reset / Reader.Reset (error cleared, tail buffer / suffix position cleared, compressor re-targeted through Reset or the constructor), Extension.Reset, CipherReader/CipherWriter.Reset, UTF8Reader.Reset, and the message reader's reset()/resetFragment() at message end (shared with C04). A field that survives a reset with its stale value is reported with the field's name. NOT decided: equivalence after arbitrary histories (a grown buffer is kept on purpose), compressor internals behind the optional Reset interfaces. What NextFrame installs for the next message (cipher reader reset to position 0, UTF-8 reader, state) does not depend on the previous message; CipherReader/Writer.Reset and cbuf.reset are part of this check. caller-slices-not-written: a reset scrubs the object, not the caller's slice attached to it (no element store into Writer.extensions or an exported slice field). The flate resets are folded from a failed state and from one that looks clean (no error, nothing withheld): the compressor is re-targeted either way. UTF8Reader.Reset is compared with a new reader for a source and for nil.",
+		Explain: "FOLD of every reset point started from a fully dirty object (every field holding a recognisable stale value: buffered bytes, a sticky error, attached extensions, flushing disabled, another side, a mid-sequence UTF-8 state, a stream position) and compared field by field with what the constructor produces for the same arguments: wsutil.Writer.Reset vs NewWriterBuffer (header reservation re-derived for the new side), ResetOp (stores exactly op/n/dirty/fseq and keeps extensions and the flush mode), the GetWriter/PutWriter pool cycle (reuse branch resets before handing out, Put resets before pooling), wsflate.Writer.Reset / Reader.Reset (error cleared, tail buffer / suffix position cleared, compressor re-targeted through Reset or the constructor), Extension.Reset, CipherReader/CipherWriter.Reset, UTF8Reader.Reset, and the message reader's reset()/resetFragment() at message end (shared with C04). A field that survives a reset with its stale value is reported with the field's name. NOT decided: equivalence after arbitrary histories (a grown buffer is kept on purpose), compressor internals behind the optional Reset interfaces. What NextFrame installs for the next message (cipher reader reset to position 0, UTF-8 reader, state) does not depend on the previous message; CipherReader/Writer.Reset and cbuf.reset are part of this check. caller-slices-not-written: a reset scrubs the object, not the caller's slice attached to it (no element store into Writer.extensions or an exported slice field). The flate resets are folded from a failed state and from one that looks clean (no error, nothing withheld): the compressor is re-targeted either way. UTF8Reader.Reset is compared with a new reader for a source and for nil. The SetBits / UnsetBits tables (C13.bits-table) run here: the per-message state of the compression extension is reused from message to message, and a first data frame without RSV1 clears what the previous message left.",
 		Trusted: []string{"go/ssa + go/types", "the checker's abstract evaluator"},
 		Run:     runC18,
 	})
